@@ -318,3 +318,9 @@ def run(ctx):
     _block.check_block_encode(ctx, "C16.P2")
     _block.check_block_decode(ctx, "C16.P2")
     check_reassembly(ctx)
+    # the table of partly received messages belongs to one link: bound per object in the constructor, never a class-level
+    # default shared by all protocol objects (owner rules of C06.P3)
+    from .. import report
+    from .c06 import check_owners
+
+    report.share(ctx, "C16.P3", check_owners)
